@@ -100,7 +100,10 @@ def gen_cmds(ch, n_cmds, mag=None, leading_move=True, letters=None, allow_zc=Tru
                 g = []  # grammar: L followed directly by closepath
             else:
                 g = g[:1]
-        cmds.append({"c": c, "g": g, "zc": zc})
+        cmd = {"c": c, "g": g, "zc": zc}
+        if zc and ch.coin(0.5):
+            cmd["zcs"] = "Z"
+        cmds.append(cmd)
     return cmds
 
 
@@ -121,7 +124,7 @@ def cmd_tokens(cmd):
             else:
                 toks.append(("num", a))
     if cmd.get("zc"):
-        toks.append(("zc", "z"))
+        toks.append(("zc", cmd.get("zcs", "z")))
     return toks
 
 
@@ -375,4 +378,7 @@ FRAGMENTS = [
     # a leading close leaves a non-empty path without a current point; inline closes then ask for the closing point
     "z L 5,5 Q 1,1 z", "z L5,5 C1,1 2,2 z", "Z l1,1 T z", "z L1,1 A 5,5 0 0 1 z", "z L 5,5 S 1,1 z", "z m 5,5 l 1,1", "Z l 3,4",
     "z z L1,1 q 1,1 z", "z L1,1 z L z", "z H5", "z L1,1 H5 V z",
+    # inline closes in either case after every command that takes them
+    "M0,0 L1,1 A 5,5 0 0 1 Z", "M0,0 L3,0 C1,1 2,2 Z", "M0,0 L3,0 Q1,1 Z", "M0,0 L3,0 L Z", "M0,0 Q1,1 3,0 T Z", "M0,0 L3,0 S1,1 Z",
+    "m1,1 l3,0 a 5,5 0 0 1 Z", "M0,0 L3,0 C1,1 Z", "M0,0 L3,0 C Z", "M0,0 L3,0 S Z", "M0,0 L3,0 Q Z",
 ]
